@@ -176,6 +176,9 @@ func (r *grammarOptimizer) optimize(expr0 Expression) Visitor {
 		expr.Expr = r.optimizeRule(expr.Expr)
 	case *NotExpr:
 		expr.Expr = r.optimizeRule(expr.Expr)
+	case *RecoveryExpr:
+		expr.Expr = r.optimizeRule(expr.Expr)
+		expr.RecoverExpr = r.optimizeRule(expr.RecoverExpr)
 	case *OneOrMoreExpr:
 		expr.Expr = r.optimizeRule(expr.Expr)
 	case *Rule:
